@@ -547,6 +547,170 @@
                 assert(r.take(message_reader.view().len() as int) =~= message_reader.view());
                 lemma_view_pre(r, message_reader.view().len() as int);
             }
+@@ LogInnerManager::load_record attrs
+#[verifier::exec_allows_no_decreases_clause]
+@@ LogInnerManager::load_record spec
+    requires old(self).wf(), full_read_model(), old(self).split_off_index >= old(self).start_index,
+        old(self).start_index + old(self).msg_count <= u64::MAX,
+    ensures
+        // C02: reading never disturbs the log — on EVERY exit (also a failed read) the state is well formed, so the next append lands at the end
+        final(self).wf(),
+        final(self).data_file.contents() == old(self).data_file.contents(), final(self).index_file == old(self).index_file,
+        final(self).header == old(self).header, final(self).indexs == old(self).indexs, final(self).start_index == old(self).start_index,
+        final(self).index_cursor == old(self).index_cursor, final(self).file_len == old(self).file_len, final(self).data_cursor == old(self).data_cursor,
+        final(self).msg_count == old(self).msg_count, final(self).last_term == old(self).last_term,
+        final(self).current_index_count == old(self).current_index_count, final(self).split_off_index == old(self).split_off_index,
+        // C02: the entries [max(start, split_off), min(end, end index)) come back exactly as their framed images in the file decode, in order
+        // everything handed to the loader before stays; C02/C01: the entries [max(start, split_off), min(end, end index)) are handed to the loader
+        // exactly as their framed images in the file decode, each once, in log order
+        final(vx_log).s.len() >= old(vx_log).s.len() && final(vx_log).s.take(old(vx_log).s.len() as int) == old(vx_log).s,
+        r is Ok ==> ({
+            let a = if start >= old(self).split_off_index { start } else { old(self).split_off_index };
+            let b = if end <= old(self).start_index + old(self).msg_count { end } else { (old(self).start_index + old(self).msg_count) as u64 };
+            let from = old(self).recs().skip(scan(old(self).recs(), (a - old(self).start_index) as nat).0);
+            if a >= b { got(final(vx_log).s, old(vx_log).s).len() == 0 } else { got(final(vx_log).s, old(vx_log).s) == loaded(from, (b - a) as nat) }
+        }),
+@@ LogInnerManager::load_record effects_pass load
+@@ LogInnerManager::load_record subst
+    &Arc<dyn LogRecordLoader + Sync + Send + 'static> => &Arc<VxLoader>
+@@ LogInnerManager::load_record entry
+    broadcast use group_std_extra;
+    let ghost l0 = vx_log.s;
+    let ghost o = *self;
+    let ghost cts = self.data_file.contents();
+    let ghost s0 = self.recs();
+    let ghost k0 = self.msg_count as nat;
+    let ghost ix = self.indexs@;
+@@ LogInnerManager::load_record before_call get_start_index 1
+        let ghost a = start;
+        let ghost b = end;
+        let ghost aj = (a - o.start_index) as nat;
+        let ghost cnt = (b - a) as nat;
+        proof { assert(o.start_index <= a && a < b && b <= o.start_index + k0); }
+@@ LogInnerManager::load_record after_call get_start_index 1
+        let ghost p = choose|p: int| 0 <= p < ix.len() && *index == #[trigger] ix[p] && (ix[p].log_index <= a || p == 0) && (p + 1 < ix.len() ==> ix[p + 1].log_index > a);
+        let ghost jj = (ix[p].log_index - o.start_index) as nat;
+        let ghost fi = ix[p].file_index as int;
+        let ghost nn = (a - ix[p].log_index) as nat;
+        let ghost rest = cts.skip(fi);
+        let ghost from = s0.skip(scan(s0, aj).0);
+        proof {
+            assert(ix[p].log_index <= a);
+            lemma_read_setup(o, a, b, p);
+        }
+@@ LogInnerManager::load_record before_loop 1
+        let ghost p0 = msg_position.position as int;
+        let ghost mut cur: int = p0;
+        proof {
+            assert(p0 == 4096 + scan(s0, aj).0);
+            assert(cts.skip(p0) =~= from);
+            assert(message_reader.view() =~= cts.subrange(p0, p0));
+            lemma_view_pre(from, 0);
+            assert(from.take(0) =~= message_reader.view());
+        }
+@@ LogInnerManager::load_record loop 1
+    invariant
+        self.data_file.contents() == cts, self.index_file == o.index_file, self.header == o.header, self.indexs == o.indexs,
+        self.start_index == o.start_index, self.index_cursor == o.index_cursor, self.file_len == o.file_len, self.data_cursor == o.data_cursor,
+        self.msg_count == o.msg_count, self.last_term == o.last_term, self.current_index_count == o.current_index_count,
+        self.split_off_index == o.split_off_index, self.need_seek_at_write, self.last_flush_index == o.last_flush_index,
+        l0 == old(vx_log).s, vx_log.s.len() >= l0.len(), vx_log.s.take(l0.len() as int) == l0,
+        o == *old(self), o.wf(), cts == o.data_file.contents(), cts.len() < 0x1_0000_0000, from == cts.skip(p0), 4096 <= p0 <= cts.len(),
+        message_reader.wf(), scan(from, cnt).1 == cnt, cnt == b - a,
+        c <= cnt,
+        p0 <= cur, cur + message_reader.view().len() == self.data_file.pos(), self.data_file.pos() <= cts.len(),
+        message_reader.view() == cts.subrange(cur, self.data_file.pos() as int),
+        cur - p0 == scan(from, (cnt - c) as nat).0,
+        ok_stream(cts.skip(cur)), terminated(cts.skip(cur)),
+        vlen(message_reader.view()) is Some ==> (vlen(message_reader.view()).unwrap() <= 10 && vval(message_reader.view()) < 0x1_0000_0000),
+        got(vx_log.s, l0) == loaded(from, (cnt - c) as nat),
+    ensures
+        vx_log.s.len() >= l0.len(), vx_log.s.take(l0.len() as int) == l0,
+        c == 0, self.data_file.contents() == cts,
+        got(vx_log.s, l0) == loaded(from, (cnt - c) as nat),
+        self.index_file == o.index_file, self.header == o.header, self.indexs == o.indexs,
+        self.start_index == o.start_index, self.index_cursor == o.index_cursor, self.file_len == o.file_len, self.data_cursor == o.data_cursor,
+        self.msg_count == o.msg_count, self.last_term == o.last_term, self.current_index_count == o.current_index_count,
+        self.split_off_index == o.split_off_index, self.need_seek_at_write,
+@@ LogInnerManager::load_record loop 2
+    invariant_except_break
+        c > 0,
+    invariant
+        self.data_file.contents() == cts, self.index_file == o.index_file, self.header == o.header, self.indexs == o.indexs,
+        self.start_index == o.start_index, self.index_cursor == o.index_cursor, self.file_len == o.file_len, self.data_cursor == o.data_cursor,
+        self.msg_count == o.msg_count, self.last_term == o.last_term, self.current_index_count == o.current_index_count,
+        self.split_off_index == o.split_off_index, self.need_seek_at_write, self.last_flush_index == o.last_flush_index,
+        l0 == old(vx_log).s, vx_log.s.len() >= l0.len(), vx_log.s.take(l0.len() as int) == l0,
+        o == *old(self), o.wf(), cts == o.data_file.contents(), cts.len() < 0x1_0000_0000, from == cts.skip(p0), 4096 <= p0 <= cts.len(),
+        message_reader.wf(), scan(from, cnt).1 == cnt, cnt == b - a,
+        c <= cnt,
+        p0 <= cur, cur + message_reader.view().len() == self.data_file.pos(), self.data_file.pos() <= cts.len(),
+        message_reader.view() == cts.subrange(cur, self.data_file.pos() as int),
+        cur - p0 == scan(from, (cnt - c) as nat).0,
+        ok_stream(cts.skip(cur)), terminated(cts.skip(cur)),
+        vlen(message_reader.view()) is Some ==> (vlen(message_reader.view()).unwrap() <= 10 && vval(message_reader.view()) < 0x1_0000_0000),
+        got(vx_log.s, l0) == loaded(from, (cnt - c) as nat),
+    ensures
+        c == 0 || (message_reader.view().len() > 0 && message_reader.view()[0] != 0 ==> first_rec(message_reader.view()) is None),
+@@ LogInnerManager::load_record loop 2 body_entry
+    let ghost j = (cnt - c) as nat;
+    let ghost r = cts.skip(cur);
+    let ghost n = (self.data_file.pos() - cur) as int;
+    proof {
+        assert(r.take(n) =~= cts.subrange(cur, self.data_file.pos() as int));
+        lemma_consume(r, n, v@.len() as int, 1);
+        assert(r.skip(v@.len() as int) =~= cts.skip(cur + v@.len()));
+        // v is record number j counted from record a
+        lemma_scan_mono(from, (j + 1) as nat, cnt);
+        lemma_frame_at(from, j);
+        assert(from.skip(scan(from, j).0) =~= r);
+        assert(v@ =~= frame_at(from, j)) by { assert(r.take(v@.len() as int) =~= r.take(n).take(v@.len() as int)); }
+        lemma_first_rec_bounds(r);
+        lemma_first_rec_take(r, v@.len() as int);
+        assert(r.take(v@.len() as int) =~= v@);
+    }
+@@ LogInnerManager::load_record before_call into 1
+                    proof {
+                        lemma_read_message_is_frame(item, v@);
+                    }
+@@ LogInnerManager::load_record after_call read_message 1
+                proof {
+                    // record j was handed over iff it decodes
+                    assert(got(vx_log.s, l0) =~= loaded(from, (j + 1) as nat)) by {
+                        if pb_decodes::<LogRecord>(v@) {
+                            assert(vx_log.s.skip(l0.len() as int) =~= loaded(from, j).push(rec_dto(frame_msg(v@))));
+                        }
+                    }
+                    assert(vx_log.s.take(l0.len() as int) =~= l0);
+                    cur = cur + v@.len();
+                    let r2 = cts.skip(cur);
+                    assert(message_reader.view() =~= cts.subrange(cur, self.data_file.pos() as int));
+                    assert(r2.take(message_reader.view().len() as int) =~= message_reader.view());
+                    lemma_view_pre(r2, message_reader.view().len() as int);
+                }
+@@ LogInnerManager::load_record after_call read 1
+            proof {
+                if read_len == 0 && c > 0 {
+                    // end of file with records still owed: impossible, the stream holds them and is terminated
+                    let r = cts.skip(cur);
+                    assert(message_reader.view() =~= r);
+                    let j = (cnt - c) as nat;
+                    lemma_scan_mono(from, (j + 1) as nat, cnt);
+                    lemma_frame_at(from, j);
+                    assert(from.skip(scan(from, j).0) =~= r);
+                    lemma_first_rec_bounds(r);
+                    assert(false);
+                }
+            }
+@@ LogInnerManager::load_record after_call append_next_buf 1
+            proof {
+                assert(message_reader.view() =~= cts.subrange(cur, self.data_file.pos() as int)) by {
+                    assert(buf@.subrange(0, read_len as int) =~= buf@.take(read_len as int));
+                }
+                let r = cts.skip(cur);
+                assert(r.take(message_reader.view().len() as int) =~= message_reader.view());
+                lemma_view_pre(r, message_reader.view().len() as int);
+            }
 @@ LogInnerManager::init spec
     requires full_read_model(),
         // the file is new (empty) or was written by this store: it is the disk image of SOME well-formed state that starts at start_index
